@@ -40,6 +40,7 @@ pub struct Replayer {
     pub deep: bool,
     pub faults: bool,
     pub pairs: bool,
+    pub reloaded: std::collections::HashSet<String>,
 }
 
 macro_rules! viol {
@@ -50,7 +51,7 @@ macro_rules! viol {
 
 impl Replayer {
     pub fn new(w: World, deep: bool) -> Self {
-        Replayer { w, viols: vec![], step: 0, states: vec![], deep, faults: false, pairs: false }
+        Replayer { w, viols: vec![], step: 0, states: vec![], deep, faults: false, pairs: false, reloaded: Default::default() }
     }
 
     /// Compare the real group of `party` with the expected projection `post`.
@@ -274,10 +275,10 @@ impl Replayer {
             if let Err(e) = agree(&g, &gq) {
                 viol!(self, ["C01", "C07"], "agreement", "{party} vs {q}: {e}");
             }
-            if let Err(e) = cross_decrypt(&g, &gq) {
+            if let Err(e) = cross_decrypt(&g, &gq, self.reloaded.contains(party)) {
                 viol!(self, ["C01", "C07"], "cross-decrypt", "{party} -> {q}: {e}");
             }
-            if let Err(e) = cross_decrypt(&gq, &g) {
+            if let Err(e) = cross_decrypt(&gq, &g, self.reloaded.contains(&q)) {
                 viol!(self, ["C01", "C07"], "cross-decrypt", "{q} -> {party}: {e}");
             }
             self.w.bump("agreement_pairs");
@@ -292,10 +293,19 @@ impl Replayer {
         if want.starts_with("err:rule") && got.starts_with("err:rule") {
             return true;
         }
+        // outcomes of named deviations carry the finding's id as a suffix ("err:epoch:F14")
+        if let Some((base, tag)) = want.rsplit_once(':') {
+            if tag.starts_with('F') && tag[1..].chars().all(|c| c.is_ascii_digit()) && base == got {
+                return true;
+            }
+        }
         let props: &[&'static str] = match a {
             "Commit" => &["C10", "C11", "C01"],
             "DeliverCommit" => &["C01", "C10", "C11", "C02"],
-            "ApplyPending" | "ClearPending" => &["C11"],
+            "ApplyPending" | "ClearPending" | "ApplyDetached" | "CommitDetached" => &["C11", "C01"],
+            "DeliverApp" => &["C05", "C19", "C01"],
+            "Encrypt" => &["C05", "C01"],
+            "Write" | "Load" => &["C06", "C15"],
             "JoinWelcome" => &["C07", "C01"],
             "DeliverProposal" | "Propose" => &["C10", "C01"],
             _ => &["C01"],
@@ -313,6 +323,7 @@ impl Replayer {
         let mut epoch_changed = false;
         let got: String = match a {
             "GenKeyPackage" => {
+                let probe_cs = self.w.cs(&p);
                 let party = self.w.parties.get_mut(&p).unwrap();
                 let ids_before: Vec<Vec<u8>> = match &party.kp.inner {
                     KpBackend::Mem(m) => m.key_packages().into_iter().map(|x| x.0).collect(),
@@ -329,7 +340,8 @@ impl Replayer {
                     Ok(m) => {
                         let store_id = match &party.kp.inner {
                             KpBackend::Mem(mm) => mm.key_packages().into_iter().map(|x| x.0).find(|i| !ids_before.contains(i)).unwrap_or_default(),
-                            _ => vec![],
+                            // the storage id of a key package is its reference
+                            _ => m.key_package_reference(&probe_cs).ok().flatten().map(|r| r.to_vec()).unwrap_or_default(),
                         };
                         let idx = self.w.kps.len() + 1;
                         if let Some(kp) = m.as_key_package() {
@@ -472,6 +484,7 @@ impl Replayer {
                         }
                         self.w.parties.get_mut(&p).unwrap().group = Some(g);
                         self.w.detached.retain(|k, _| k.0 != p);
+                        self.reloaded.insert(p.clone());
                         self.w.bump("load_equals_written_checks");
                         "ok".into()
                     }
@@ -505,7 +518,11 @@ impl Replayer {
                             if own { "ok:own".into() } else { "ok".into() }
                         }
                         CommitEffect::Removed { .. } => "ok:removed".into(),
-                        CommitEffect::ReInit(_) => "ok:reinit".into(),
+                        // a re-init commit advances the epoch like any other (and freezes the group)
+                        CommitEffect::ReInit(_) => {
+                            epoch_changed = true;
+                            if own { "ok:own".into() } else { "ok".into() }
+                        }
                     },
                     Ok(o) => format!("ok:unexpected:{o:?}"),
                     Err(e) => classify(&e),
@@ -654,10 +671,8 @@ impl Replayer {
                 // a stored prior-epoch record that was merely loaded into the repository's cache (byte-identical
                 // to what storage holds) is not a change of the member
                 let gid = self.w.gid.clone();
-                let old_recs = b.pending_update_records();
-                let cache_only = after.pending_update_records().iter().all(|(id, bytes)| {
-                    old_recs.iter().any(|(i, bb)| i == id && bb == bytes) || self.w.parties[&p].gs.peek_epoch(&gid, *id).as_deref() == Some(bytes.as_slice())
-                });
+                let gs = self.w.parties[&p].gs.clone();
+                let cache_only = after.pending_updates_only_cached(b, |id| gs.peek_epoch(&gid, id));
                 let d: Vec<_> = b.diff(&after).into_iter().filter(|c| !(got == "ok:removed" && self.w.opts.encrypt_controls && *c == "epoch_secrets") && !(*c == "repo_updates" && cache_only)).collect();
                 if !d.is_empty() {
                     viol!(self, ["C04"], "err-changed-state", "{a} by {p} returned {got} but changed {d:?}");
